@@ -62,8 +62,54 @@ def _case(draw):
         if len(set(names)) != len(names) or not all(gen.servable_name(n, True, full and False) for n in names):
             vsep = False
             site = [["readme.txt", {"kind": "txt", "content": "x\n"}]]
-    return {"full": full, "gopher_ok": gopher_ok, "vsep": vsep, "site": site, "long": longn,
+    nlinks = 0
+    if not longn and not vsep and draw(st.booleans()):
+        nlinks = _add_link_files(draw, site)
+    return {"full": full, "gopher_ok": gopher_ok, "vsep": vsep, "site": site, "long": longn, "linkfiles": nlinks,
             "cache": draw(st.booleans()), "forms": draw(st.integers(0, len(CRAWL_FORMS) - 1))}
+
+
+def _add_link_files(draw, site):
+    """UMN link files ('.Links') in up to two real directories: local links (no Host=/Port=, or '+') to objects that
+    exist elsewhere in the site, spelled as the manual allows: absolute, './child', 'child/grandchild', '../sibling/x'."""
+    import posixpath
+    import re
+    objs = [o for o in sites.objects(site)
+            if "|" not in o["sel"] and "?" not in o["sel"] and not re.search(r"[\t\r\n]", o["sel"]) and not o["what"].startswith("zip:")
+            and o["what"] in ("txt", "html", "bin", "dir", "map", "mbox", "maildir", "gz", "zip")]
+    if not objs:
+        return 0
+    conts = [("", site)]
+
+    def walk(items, base):
+        for name, it in items:
+            if it["kind"] == "dir" and not re.search(r"[\t\r\n?|]", base + "/" + name):
+                conts.append((base + "/" + name, it["items"]))
+                walk(it["items"], base + "/" + name)
+    walk(site, "")
+    n = 0
+    for dsel, items in draw(st.lists(st.sampled_from(conts), min_size=1, max_size=2, unique_by=lambda c: c[0])):
+        if any(nm == ".Links" for nm, _ in items):
+            continue
+        blocks = []
+        for i, o in enumerate(draw(st.lists(st.sampled_from(objs), min_size=1, max_size=3))):
+            rel = posixpath.relpath(o["sel"], dsel or "/")
+            below = o["sel"].startswith(dsel + "/")
+            child = below and "/" not in o["sel"][len(dsel) + 1:]
+            styles = ["abs", "rel"] + (["dotslash"] if child else [])
+            style = draw(st.sampled_from(styles))
+            if rel == "." or rel.startswith("URL:"):
+                style = "abs"
+            path = {"abs": o["sel"], "rel": rel, "dotslash": "./" + o["sel"][len(dsel) + 1:]}[style]
+            if path != path.strip() or path.startswith("#"):
+                continue
+            typ = "1" if o["kind"] == "menu" else ("9" if o["what"] in ("bin",) else ("h" if o["what"] == "html" else "0"))
+            host = draw(st.sampled_from(["", "Host=+\nPort=+\n"]))
+            blocks.append("Name=Link %d %s\nType=%s\nPath=%s\n%s" % (i, style, typ, path, host))
+            n += 1
+        if blocks:
+            items.append([".Links", {"kind": "links", "text": "\n".join(blocks)}])
+    return n
 
 
 def strategy(tier):
@@ -167,7 +213,7 @@ def check_case(case, ctx):
         fails = []
         if case.get("long"):
             ctx.label("long-names", "longest-selector:%s" % ("<=1024" if max([len(o["sel"]) for o in objs] + [0]) <= 1024 else ">1024"))
-        ctx.label("full" if full else "shipped", "cache:%s" % case["cache"], "gopher_ok:%s" % case["gopher_ok"],
+        ctx.label("full" if full else "shipped", "link-file-blocks:%s" % ("0" if not case.get("linkfiles") else "1+"), "cache:%s" % case["cache"], "gopher_ok:%s" % case["gopher_ok"],
                   "vsep-flavour" if case["vsep"] else "plain-flavour")
         for form in forms:
             fam = clients.FORMS[form][1]
